@@ -65,7 +65,7 @@ fn base_case(id: String) -> Case {
 // ---------------------------------------------------------------------------------- C01
 
 pub fn gen_c01(r: &mut Rng, id: usize, thorough: bool) -> Group {
-    if r.below(40) == 0 {
+    if r.below(if thorough { 250 } else { 40 }) == 0 {
         // inputs of tens of KiB made of tokens of many lengths: whatever block size a reader uses, tokens of every kind end up
         // straddling its block boundaries (numbers with long digit runs, strings with escapes and multi-byte characters, words)
         let target = r.range(17_000, 40_000);
